@@ -1,5 +1,7 @@
+import Vet.Props.C12Prune
 import Vet.Props.Resolve
 #print axioms Vet.search_minimax
 #print axioms Vet.C12_fully_only_if
 #print axioms Vet.C12_fully_if
 #print axioms Vet.C12_classes_partition
+#print axioms Vet.C12_prune_exemption_needed_partial
